@@ -29,6 +29,9 @@ Definition fpath_of (tbl : list (nat * nat * list nat)) (l t : nat) : list nat :
 Definition closedb (d : list rkey) : bool := forallb (dom d) (all_rhs d).
 
 Definition run_extractor (a : sx) : sx :=
+  match sx_list a with
+  | [] => L [I 9; L []; I 0; I 0]      (* no pruning-database extractor in this run *)
+  | _ =>
   let root := sx_nat (sx_nth a 0) in
   let stored := map dec_rkey (sx_list (sx_nth a 1)) in
   let tree := map dec_rkey (sx_list (sx_nth a 2)) in
@@ -39,6 +42,7 @@ Definition run_extractor (a : sx) : sx :=
   match extract rep fp stored tree root order with
   | None => L [I 1; L []; I 0; I 0]
   | Some d => L [I 0; L (map enc_rkey d); of_bool (check d root); of_bool (closedb d && dom d root)]
+  end
   end.
 
 Definition dec_fkey (s : sx) : fkey :=
